@@ -105,12 +105,14 @@ async def rescan_env_vars(workflow: Workflow, reporter: ReporterClient):
 
     # One step may use several changed variables, so it is collected only once.
     steps_to_rerun = {}
+    changed_uses = []
     reported_names = set()
     for node_i, label, name, old_value in env_var_uses:
         new_value = os.getenv(name)
         if new_value == old_value:
             continue
         steps_to_rerun[node_i] = Step(workflow, node_i, label)
+        changed_uses.append((node_i, name))
         if name not in reported_names:
             reported_names.add(name)
             old_fmt = fmt_env_value(old_value)
@@ -121,6 +123,11 @@ async def rescan_env_vars(workflow: Workflow, reporter: ReporterClient):
         async with workflow.db:
             for step in steps_to_rerun.values():
                 workflow.mark_step_pending(step)
+            # The change has been acted upon, so the stored value follows it.
+            # It would otherwise stay at the value seen when the step was defined,
+            # and a variable that changes back to that value would go unnoticed.
+            for node_i, name in changed_uses:
+                steps_to_rerun[node_i].refresh_env_dep(name)
 
 
 async def rescan_files(workflow: Workflow, reporter: ReporterClient, builder: Builder):
